@@ -160,6 +160,44 @@ def main():
     out.append("Definition grammar_reserved : list string := " + slist(reserved) + ".\n")
     out.append("Definition operand_regnames : list string := " + slist(regnames) + ".\n")
     out.append("Definition operand_reserved : list string := " + slist(op_reserved) + ".\n")
+    # ---- T1': FindEncoding tabulated over the finite operand-class skeleton (driver mode `rows`)
+    rows = json.load(open(os.path.join(VERIF, "_build", "rows.json")))
+    TY = {"r8": "TR8", "r16": "TR16", "r32": "TR32", "sreg": "TSreg", "creg": "TCreg", "imm8": "TImm8", "imm16": "TImm16",
+          "imm32": "TImm32", "m8": "TM8", "m16": "TM16", "m32": "TM32", "rel16": "TRel16", "rel32": "TRel32", "imm64": "TImm64"}
+    rl = []
+    for r in rows:
+        if not r["found"]:
+            continue
+        for t in r["types"]:
+            if t not in TY:
+                die("FindEncoding table: operand type %r" % t)
+        ob = r["opcode"]
+        if len(ob) % 2:
+            die("FindEncoding table: opcode %r" % ob)
+        opc = "[" + "; ".join(str(int(ob[i:i + 2], 16)) for i in range(0, len(ob), 2)) + "]"
+        add = "None" if not r["addend"] else "Some %d%%nat" % int(r["addend"].lstrip("#"))
+        if r["has_modrm"]:
+            reg = r["Reg"]
+            regs = "MOperand %d%%nat" % int(reg[1:]) if reg.startswith("#") else "MDigit %d" % int(reg)
+            if not r["Rm"].startswith("#"):
+                die("FindEncoding table: ModRM.rm %r" % r["Rm"])
+            mod = "Some (%s, %d%%nat)" % (regs, int(r["Rm"][1:]))
+        else:
+            mod = "None"
+        imm = "None" if not r["imm_size"] else "Some (%d%%nat, %d%%nat)" % (r["imm_size"], int(r["imm_val"].lstrip("#")))
+        rl.append("((%s, [%s], %s, %s, %s, %s), {| r_opcode := %s; r_addend := %s; r_modrm := %s; r_imm := %s; r_base := %d |})" % (
+            qs(r["mn"]), "; ".join(TY[t] for t in r["types"]), str(r["Acc"]).lower(), str(r["Fits8"]).lower(), str(r["Ind"]).lower(), str(r["AnyImm"]).lower(),
+            opc, add, mod, imm, r["base_size"]))
+    rtxt = ("(* GENERATED by harness/translate/translate.py: asmdb.FindEncoding tabulated by the driver - do not edit *)\n"
+            "From Coq Require Import List ZArith String.\nImport ListNotations.\nLocal Open Scope Z_scope.\nLocal Open Scope string_scope.\n\n"
+            "Inductive otype := TR8 | TR16 | TR32 | TSreg | TCreg | TImm8 | TImm16 | TImm32 | TImm64 | TM8 | TM16 | TM32 | TRel16 | TRel32 | TOther.\n"
+            "Inductive mreg := MOperand (i : nat) | MDigit (d : Z).\n"
+            "Record row := { r_opcode : list Z; r_addend : option nat; r_modrm : option (mreg * nat); r_imm : option (nat * nat); r_base : Z }.\n"
+            "Definition rowkey := (string * list otype * bool * bool * bool * bool)%type.\n"
+            "Definition rows : list (rowkey * row) :=\n [" + ";\n  ".join(rl) + "].\n")
+    p2 = os.path.join(GEN, "Rows.v")
+    if not os.path.exists(p2) or open(p2).read() != rtxt:
+        open(p2, "w").write(rtxt)
     txt = "\n".join(out)
     p = os.path.join(GEN, "Tables.v")
     if not os.path.exists(p) or open(p).read() != txt:
